@@ -106,7 +106,7 @@ def direct(seed, tier, model, stats):
         for _ in range(2 if tier == "quick" else 6):
             kind = r.choice(["HP", "LP"])
             order = r.choice([1, 2, 3, 1, 2, 3, -1, -2])      # a negative order is the opposite filter
-            SR = r.choice([1, 100, 1e4, 1e9, 1.2e9, 3e9])
+            SR = r.choice([1, 100, 1e4, 1e9, 1.2e9, 3e9, 2.5, 12345.678, 0.75])      # (sample rates need not be whole numbers)
             fc = SR * r.choice([1e-4, 1e-2, 0.12, 0.5, 3])
             dc = r.choice([0.5, 1, 2])
             inverse = r.random() < 0.5
@@ -241,7 +241,9 @@ def direct(seed, tier, model, stats):
     # (each unusable axis is tried twice: a refused call must not make the next one pass)
     for fr, want in (([0, 1, 1, 5], ValueError), ([0, 1, 1, 5], ValueError), ([0, 2, 1, 5], ValueError), ([0, 2, 1, 5], ValueError),
                      ([0, 1, 2, 3], ripasso.MissingFrequenciesError), ([0, 1, 2, 3], ripasso.MissingFrequenciesError),
-                     ([0, 1, 2, 4.999], ripasso.MissingFrequenciesError), ([0, 1, 2, 4.999], ripasso.MissingFrequenciesError)):
+                     ([0, 1, 2, 4.999], ripasso.MissingFrequenciesError), ([0, 1, 2, 4.999], ripasso.MissingFrequenciesError),
+                     # the offending step lies beyond Nyquist (5 Hz): still not strictly increasing (seeded C12-m18)
+                     ([0, 2, 6, 5.5], ValueError), ([0, 2, 5, 5], ValueError), ([0, 5, 1, 7], ValueError), ([0, 6, 5], ValueError)):
         tested["rejections"] += 1
         try:
             ripasso.applyCustomTransferFunction(x, 10, np.array(fr, float), np.ones(len(fr)))
